@@ -129,6 +129,8 @@ def run(ck):
     ck.mc("MC_Bounds", "MC_Bounds_u64.cfg", note="u64 serial: group formulas, ladder, exponent chains, sqrt_ratio_i, Edwards / Ristretto / Montgomery encoders, decoders and maps; all chains, every kernel precondition", workers=6)
     ck.mc("MC_Bounds", "MC_Bounds_u32.cfg", note="u32 serial, same programs (b < 2.5 / 1.75 contracts)", workers=6)
     ck.mc("MC_Bounds", "MC_Bounds_neg2.cfg", note="kept counterexample: negation biased by 2p instead of 16p", workers=2, expect_violation=True)
+    ck.mc("MC_Bounds", "MC_Bounds_neg3.cfg", note="kept counterexample (u32): Niels addition doubling T*d lazily puts four summands on the tight side of a multiplication", workers=2, expect_violation=True)
+    ck.mc("MC_Bounds", "MC_Bounds_neg4.cfg", note="kept counterexample (u32): double_and_compress_batch with the factor two moved onto g = YY + XX", workers=2, expect_violation=True)
     ck.mc("MC_Bounds", "MC_Bounds_neg.cfg", note="kept counterexample: a subtraction that does not reduce breaks the next multiplication", workers=2, expect_violation=True)
     ck.mc("MC_BoundsAvx2", "MC_BoundsAvx2.cfg", note="AVX2 parallel formulas, per-lane factors; re-derives (1.01, 1.6, 2.33, 1.6)", workers=2)
     ck.mc("MC_BoundsAvx2", "MC_BoundsAvx2_neg.cfg", note="kept counterexample: a second lazy negation of a cached point", workers=2, expect_violation=True)
